@@ -65,6 +65,11 @@ def run(model, tier="quick"):
     views(res, model)
     ledgers(res, model, ["supply", "withdraw", "borrow", "repay", "__sub_supply_amount", "__sub_borrow_amount"])
     res.floor("obligations", len(res.obligations), 15)
+    # every Aave figure is read through the memo caches: their typestate (no stale read, no stale exit) is a premise here
+    from ..rules.cache import run_cache
+    if "R-CACHE" not in res.rules:
+        res.rules.append("R-CACHE")
+    res.units["aave_cache_writer_methods"] = run_cache(model, res, "AaveV3Market", res.prop)[0]
     from ..rules.fresh import fresh_rule
     if "R-FRESH" not in res.rules:
         res.rules.append("R-FRESH")
